@@ -59,9 +59,9 @@ func (f *fakeDbms) Timestamp() core.SuDate {
 
 type exec struct {
 	sc      *scen
-	server  []core.SuDate   // every server response, in issue order
-	fetched []core.SuDate   // responses given to the client process
-	seqs    [][]core.Value  // per caller thread: values received, in order
+	server  []core.SuDate  // every server response, in issue order
+	fetched []core.SuDate  // responses given to the client process
+	seqs    [][]core.Value // per caller thread: values received, in order
 	names   []string
 }
 
